@@ -289,7 +289,7 @@ func TestC47(t *testing.T) {
 		run(c)
 	}
 	rnd := vt.Rand()
-	for i, n := 0, vt.Pick(300, 4000); i < n; i++ {
+	for i, n := 0, vt.Pick(600, 2500); i < n; i++ {
 		run(randHistory(rnd))
 	}
 	if caseID == 0 {
